@@ -124,8 +124,9 @@ CLAIMED = {
         "triangles, k-core, independent set, preflow-push and bipartite matching are built from the working tree and run on generated "
         "graphs (disconnected, self loops, parallel edges, skew, weights 0-1000) with every algorithm variant, serial/parallel and 1-8 "
         "threads; what they print is parsed and TLC judges every result; crashes, hangs and failed self-verification are violations.",
-   note="Trusted: TLC, output parsing. Graphs have at most 9 nodes. PageRank (numeric tolerance) and the distributed applications are "
-        "not decided here; results are observed through printed summaries only.",
+   note="Trusted: TLC, output parsing. Graphs have at most 9 nodes (plus hub graphs with a thousand nodes for bfs/sssp). Distributed bfs/sssp/cc/"
+        "k-core run under mpirun on 1-4 hosts (Sync and Async) and their complete output is judged; PageRank is compared with an integer "
+        "fixed-point iteration within 0.02 per node; results of the CPU applications are observed through printed summaries only.",
    technique="TLA+ functional specification of the answers + TLC trace validation of real application runs over all algorithm variants",
    engine="free+tv", design_ref="6/C20"),
  "C05": dict(
@@ -251,8 +252,8 @@ CLAIMED = {
         "concurrent mixes on 1-8 threads with blocks handed to other threads for freeing; canaries are re-checked; TLC replays every history "
         "on AllocAbs (addresses split into two words).",
    note="Trusted: TLC, the address/canary bookkeeping of harness/src/alloc.cpp. NUMA placement not observable (one node). Concurrent schedules sampled.",
-   technique="TLA+ live-interval specification + TLC trace validation of real allocation histories",
-   engine="seqreplay+free+tv", design_ref="6/C09"),
+   technique="TLA+ live-interval specification + TLC model checking of the page-pool and per-thread-storage allocators + TLC trace validation of real allocation histories",
+   engine="mc+seqreplay+free+ctl+tv", design_ref="6/C09"),
 }
 
 NOT_YET = "check not built yet in this round (specification and harness planned in DESIGN.md section 6); not claimed"
